@@ -150,7 +150,9 @@ def work(item):
             T = {"a": Ta, "b": Tb}
             inp = {"a": (ia, ev_a), "b": (ib, ev_b)}
             nA = ia["nA"]
-            scale = max(float(np.max(np.abs(Ta))), float(np.max(np.abs(Tb))), 1e-30)
+            scale = max(float(np.max(np.abs(Ta))), float(np.max(np.abs(Tb))))
+            if scale < 1e-12:
+                scale = 1.0  # a (numerically) zero kernel: judge on an O(1) scale, not relative to rounding noise
             pats = [np.linspace(1.0, 2.0, nA) * scale, np.where(np.arange(nA) % 2 == 0, -3.5, 7.25) * scale]
             # (a) all call sequences of length <= 3
             for P in pats:
@@ -322,7 +324,9 @@ def work_expr(item):
             return c
 
         T = {s: call(s, np.zeros(nA)).result() for s in "ab"}
-        scale = max(float(np.max(np.abs(T["a"]))), float(np.max(np.abs(T["b"]))), 1e-30)
+        scale = max(float(np.max(np.abs(T["a"]))), float(np.max(np.abs(T["b"]))))
+        if scale < 1e-12:
+            scale = 1.0
         pats = [np.linspace(1.0, 2.0, nA) * scale, np.where(np.arange(nA) % 2 == 0, -3.5, 7.25) * scale]
         for Pt in pats:
             for n in (1, 2, 3):
